@@ -104,8 +104,9 @@ def tlc(cwd, module, cfg=None, workers=None, timeout=600, extra=(), javaopts=Non
         cmd += ["-deadlock"]
     cmd += list(extra) + [module]
     env = {}
-    if javaopts:
-        env["JAVA_TOOL_OPTIONS"] = javaopts
+    jtmp = os.path.join(cwd, "jtmp")
+    os.makedirs(jtmp, exist_ok=True)
+    env["JAVA_TOOL_OPTIONS"] = ((javaopts + " ") if javaopts else "") + "-Djava.io.tmpdir=" + jtmp   # TLC litters java.io.tmpdir
     rc, out, wall = run(cmd, cwd=cwd, env=env, timeout=timeout)
     shutil.rmtree(meta, ignore_errors=True)
     return TLCResult(rc, out, wall)
@@ -121,7 +122,9 @@ def tlc_must_pass(res, what):
 def apalache(cwd, module, args, timeout=300):
     out_dir = tempfile.mkdtemp(prefix="apa-", dir=cwd)
     cmd = ["apalache-mc", "check", "--out-dir=" + out_dir] + list(args) + [module]
-    rc, out, wall = run(cmd, cwd=cwd, timeout=timeout)
+    jtmp = os.path.join(cwd, "jtmp")
+    os.makedirs(jtmp, exist_ok=True)
+    rc, out, wall = run(cmd, cwd=cwd, timeout=timeout, env=dict(JVM_ARGS="-Djava.io.tmpdir=" + jtmp, TMPDIR=jtmp))
     shutil.rmtree(out_dir, ignore_errors=True)
     return rc, out, wall
 
@@ -132,7 +135,7 @@ def harness_dir():
     whose replace directives point at that tree"""
     if REPO == "/repo":
         return HARNESS
-    d = os.path.join(os.environ.get("TMPDIR") or "/tmp", "verif-harness-" + hashlib.sha1(REPO.encode()).hexdigest()[:10])
+    d = os.path.join(os.environ.get("TMPDIR") or "/tmp", "verif-harness-%s-%d" % (hashlib.sha1(REPO.encode()).hexdigest()[:10], os.getpid()))
     if os.path.isdir(d):
         shutil.rmtree(d)
     shutil.copytree(HARNESS, d, ignore=shutil.ignore_patterns("*.test", "go.sum"))
